@@ -325,6 +325,12 @@ func derivedUses(v ssa.Value) []ssa.CallInstruction {
 			switch x := r.(type) {
 			case ssa.CallInstruction:
 				out = append(out, x)
+				switch calleeName(x) {
+				case "strings.NewReader", "bytes.NewReader", "bytes.NewBufferString", "bytes.NewBuffer":
+					if cv, ok := x.(*ssa.Call); ok {
+						walk(cv) // the reader yields exactly the value
+					}
+				}
 			case *ssa.MakeInterface:
 				walk(x)
 			case *ssa.ChangeType:
